@@ -11,7 +11,8 @@ from util import call
 REQUIRED_THEOREMS = ['Usid.C13.fresh_monotone', 'Usid.C13.exactly_that_base', 'Usid.C13.history_all_succeed',
                      'Usid.C13.lookup_exact', 'Usid.C13.provenance']
 RULE = ('histories (quick: length <= 8 random; thorough: also all histories of length <= 3 over a reduced vocabulary) of '
-        'create_indexed_group / create_results_group / deletions over a name vocabulary closed under prefix and '
+        'create_indexed_group / create_results_group (default placement, an explicit parent group elsewhere in the same file, '
+        'a parent group in another file) / deletions over a name vocabulary closed under prefix and '
         'substring relations, with sibling groups and non-group objects present; non-trivial = at least one create '
         'whose base is a prefix/substring of another present name')
 BASES = ['A', 'A_', 'A_B', 'A_A', 'B', 'AB', 'A_0']
@@ -41,7 +42,9 @@ def generate(seed, tier):
                 ops.append({'op': 'results', 'dset': rng.choice(DSETS), 'tool': rng.choice(TOOLS)})
             else:
                 ops.append({'op': 'del', 'pick': rng.randint(0, 20)})
-        cases.append({'initial': initial, 'ops': ops, 'same': rng.random() < 0.75})
+        same = rng.random() < 0.75
+        cases.append({'initial': initial, 'ops': ops, 'same': same,
+                      'sibling': same and rng.random() < 0.35})     # an explicit parent group elsewhere in the SAME file
     if tier == 'thorough':
         vocab = [{'op': 'indexed', 'base': b} for b in ('A', 'A_B', 'A_A')] + \
                 [{'op': 'results', 'dset': d, 'tool': t} for d in ('Raw', 'Raw_Data') for t in ('Fit', 'Fitter')] + \
@@ -77,7 +80,7 @@ def run_impl(inp, work):
         anc = {'Position_Indices': pi, 'Position_Values': pv, 'Spectroscopic_Indices': si, 'Spectroscopic_Values': sv}
         P = f.create_group('P')
         mains = {d: _mk_main(P, d, anc) for d in DSETS}
-        parent = P if inp['same'] else f2.create_group('Q')
+        parent = (f.create_group('Archive') if inp.get('sibling') else P) if inp['same'] else f2.create_group('Q')
         for name, kind in inp['initial']:
             if kind == 'group':
                 parent.create_group(name)
@@ -89,7 +92,7 @@ def run_impl(inp, work):
             if op['op'] == 'indexed':
                 r = call(hdf_utils.create_indexed_group, parent, op['base'])
             elif op['op'] == 'results':
-                kw = {} if inp['same'] else {'h5_parent_group': parent}
+                kw = {} if (inp['same'] and not inp.get('sibling')) else {'h5_parent_group': parent}
                 r = call(hdf_utils.create_results_group, mains[op['dset']], op['tool'], **kw)
             else:
                 groups = [k for k in parent.keys() if isinstance(parent[k], h5py.Group)]
@@ -116,7 +119,7 @@ def run_impl(inp, work):
         find = {}
         for d in DSETS:
             for t in TOOLS:
-                kw = {} if inp['same'] else {'h5_parent_group': parent}
+                kw = {} if (inp['same'] and not inp.get('sibling')) else {'h5_parent_group': parent}
                 r = call(hdf_utils.find_results_groups, mains[d], t, **kw)
                 find['%s|%s' % (d, t)] = sorted(g.name.split('/')[-1] for g in r[1]) if r[0] == 'ok' else {'err': r[1]}
         sources = {}
@@ -188,7 +191,10 @@ def oracle(inp, obs):
             fails.append('lookup: find_results_groups(%s, %s) returned %s, groups created for that pair: %s'
                          % (d, t, got, want))
     if inp['same']:
+        initial_names = {n for n, _ in inp['initial']}
         for n, tg in tags.items():
+            if inp.get('sibling') and n in initial_names:
+                continue        # a group left elsewhere by an earlier session records no source: nothing to recover
             if n in obs['sources'] and obs['sources'][n] != {'ok': tg[0]}:
                 fails.append('source-recovery: get_source_dataset(%s) gave %s, expected %s' % (n, obs['sources'][n], tg[0]))
     return fails
@@ -205,7 +211,7 @@ def nontrivial(inp, obs):
 
 def model_requests_obs(inp, obs):
     init = [{'name': n, 'kind': k} for n, k in inp['initial']]
-    if inp['same']:
+    if inp['same'] and not inp.get('sibling'):
         init = init + [{'name': d, 'kind': 'dataset'} for d in DSETS]
     queries = [{'dset': d, 'tool': t} for d in DSETS for t in TOOLS]
     return [{'op': 'grp.run', 'initial': init, 'ops': _resolve_ops(inp, obs), 'queries': queries,
